@@ -314,3 +314,74 @@ Definition face3 (h0 h1 h2 : Z * Z) : Z * Z * Z :=
 
 Definition perms3 {A} (x y z : A) : list (A * A * A) :=
   [(x, y, z); (x, z, y); (y, x, z); (y, z, x); (z, x, y); (z, y, x)].
+
+(* ------------------------------------------------------------------ *)
+(* face_op.cpp:41-66  AssembleHalfedges: the loop assembly of one face.
+   std::multimap<int,int> vert_edge  (startVert -> local edge index), filled in
+   slot order (emplace keeps equal keys in insertion order); modelled as an
+   association list sorted by key, stable.  begin() = head, find(k) = the first
+   entry with key k, erase(it).  polys is kept reversed at both levels
+   (head = back()).  Dereferencing end() / back() of an empty vector is None. *)
+Section Assemble.
+  Context {V : Type}.
+  Variable eqV : V -> V -> bool.        (* thisEdge == startEdge *)
+  Variable endOf : V -> Z.              (* (start + thisEdge)->endVert *)
+
+  Fixpoint mm_find (k : Z) (M : list (Z * V)) : option (V * list (Z * V)) :=
+    match M with
+    | [] => None
+    | (k', v) :: r =>
+        if Z.eqb k' k then Some (v, r)
+        else match mm_find k r with
+             | Some (x, r') => Some (x, (k', v) :: r')
+             | None => None
+             end
+    end.
+
+  Fixpoint assemble_loop (fuel : nat) (M : list (Z * V)) (startE thisE : V)
+           (polys : list (list V)) : option (list (list V)) :=
+    match fuel with
+    | O => None
+    | S n =>
+        let go (M : list (Z * V)) (startE thisE : V) (polys : list (list V)) :=
+            (* polys.back().push_back(thisEdge); result = find(endVert); thisEdge = result->second; erase(result) *)
+            match polys with
+            | [] => None
+            | p :: ps =>
+                match mm_find (endOf thisE) M with
+                | None => None
+                | Some (nxt, M') => assemble_loop n M' startE nxt ((thisE :: p) :: ps)
+                end
+            end in
+        if eqV thisE startE then
+          match M with
+          | [] => Some (rev (map (@rev V) polys))                 (* break *)
+          | (_, v) :: _ => go M v v ([] :: polys)                 (* startEdge = begin()->second; push_back({}) *)
+          end
+        else go M startE thisE polys
+    end.
+End Assemble.
+
+(* the multimap of one face: (startVert, slot) in slot order, sorted stably by key *)
+Definition key_lt {V} (a b : Z * V) : bool := Z.ltb (fst a) (fst b).
+
+Definition face_multimap (es : list (Z * Z)) : list (Z * nat) :=
+  stable_sort key_lt (combine (map fst es) (seq 0 (length es))).
+
+(* AssembleHalfedges on the halfedges (startVert, endVert) of one face given in
+   slot order; the result lists local edge indices (slots) *)
+Definition assemble_halfedges (es : list (Z * Z)) : option (list (list nat)) :=
+  assemble_loop Nat.eqb (fun i => snd (nth i es (0, 0)%Z)) (2 * length es + 2)
+                (face_multimap es) 0%nat 0%nat [].
+
+(* what reaches the triangulator and the output: the halfedge each slot holds *)
+Definition contents (es : list (Z * Z)) (polys : list (list nat)) : list (list (Z * Z)) :=
+  map (map (fun i => nth i es (0, 0)%Z)) polys.
+
+(* ------------------------------------------------------------------ *)
+(* boolean3.cpp:398-458 Winding03_: after all unite() calls, verts = the set of
+   find(v); w03[verts[i]] += s02 over the collisions of that vertex (unique
+   slots), then the flood fill w03[i] = w03[find(i)].  With wind v = the sum the
+   collider produces for vertex v (an oracle: Kernel02 on doubles), the result
+   is wind (root i). *)
+Definition w03_result (wind : nat -> Z) (root : nat -> nat) (i : nat) : Z := wind (root i).
